@@ -282,17 +282,13 @@ func c19AccRun(out *c19Out, raw []byte) {
 			<-barrier
 			for _, idx := range c.Progs[g] {
 				results[g] = append(results[g], c19Accessors[idx%len(c19Accessors)].Call(shared))
+				c19Beat()
 			}
 		})
 	}
+	c19Beat()
 	close(barrier)
-	done := make(chan struct{})
-	go func() { wg.Wait(); close(done) }()
-	select {
-	case <-done:
-	case <-time.After(c19StepTimeout):
-		(&c19Sched{out: out}).hang()
-	}
+	wg.Wait() // a goroutine that never comes back is reported by the child's watchdog
 	if out.Failed() {
 		return
 	}
